@@ -16,7 +16,7 @@ META = {
         "consumption argument / pool.quantity −= / future claim after split rescaling) are the same term; pooling uses one "
         "term for pool.quantity +=, for the cost lookup and for marking the lots. R4 (MPT): adding an acquisition is dominated "
         "by the `claimed > amount → Err` guard on the same values. R5 (MPT): every Ok exit of the cascade after matching lies "
-        "on the false edge of `remaining > 0`. R7: SPLIT multiplies and UNSPLIT divides share counts by the line's own ratio (shared with C10-R1/R2). R8: an enumerate index used as key of the shared per-line tables is taken before any element-dropping stage (shared with C09-R5). Decides sameness of terms and shape of paths; not the conservation equations. R9: a loop that spreads a quantity over the lots of a date is left only when the lots or the quantity are used up (no exit that depends on the current lot)."),
+        "on the false edge of `remaining > 0`. R7: SPLIT multiplies and UNSPLIT divides share counts by the line's own ratio (shared with C10-R1/R2). R8: an enumerate index used as key of the shared per-line tables is taken before any element-dropping stage (shared with C09-R5). Decides sameness of terms and shape of paths; not the conservation equations. R9: a loop that spreads a quantity over the lots of a date is left only when the lots or the quantity are used up (no exit that depends on the current lot). R10 (every line counts once): no call in the matcher or the calculator removes elements from a vector of transactions (dedup, retain, truncate, drain, pop, remove, clear, …)."),
     "trusted_base": ["rust_decimal operator semantics", "rustc MIR + resolution", "copy propagation over single-assignment temporaries is value-preserving"],
 }
 
